@@ -30,6 +30,12 @@ def directed():
     # failing enter inside extend (D2): doer 1 extends root with [3, 4]; 4 fails in enter
     out.append(base({"1": {"kind": "func", "script": [{"es": [], "out": ["y", None]}, {"es": [["ext", 0, [3, 4]]], "out": ["y", None]}, {"es": [], "out": ["r", "true"]}]},
                      "2": {"kind": "doer", "script": L(Y, Y, Y, Y)}, "3": {"kind": "func", "script": L(Y, Y, Y)}, "4": {"kind": "doer", "script": L(X)}}, [1, 2]))
+    # the same with a KeyboardInterrupt in the new doer's enter (BaseException, not Exception), in the Doist and in a DoDoer
+    for tgt, root, extra in ((0, [1, 2], {}), (9, [9], {"9": {"kind": "nest", "tock": 0.0, "always": False, "kids": [1, 2]}})):
+        defs = {"1": {"kind": "func", "script": [{"es": [], "out": ["y", None]}, {"es": [["ext", tgt, [3, 4]]], "out": ["y", None]}, {"es": [], "out": ["r", "true"]}]},
+                "2": {"kind": "doer", "script": L(Y, Y, Y, Y)}, "3": {"kind": "func", "script": L(Y, Y, Y)}, "4": {"kind": "doer", "script": L(K)}}
+        defs.update(extra)
+        out.append(base(defs, root))
     # removal of a sibling and of self; extend with duplicates (D33); remove with duplicates (D34)
     out.append(base({"1": {"kind": "func", "script": [{"es": [], "out": ["y", None]}, {"es": [["rem", 0, [2, 1]]], "out": ["y", None]}, {"es": [], "out": ["y", None]}, {"es": [], "out": ["r", "true"]}]},
                      "2": {"kind": "doer", "script": L(Y, Y, Y, Y, Y)}, "3": {"kind": "func", "script": L(Y, Y, Y, Y, R)}}, [1, 2, 3]))
